@@ -15,6 +15,12 @@ pub broadcast proof fn axiom_question_mark_uses_from<F: From<E>, E>(e: E, r: F)
 pub broadcast proof fn axiom_str_ext(a: &str, b: &str)
   ensures #![trigger a@, b@] (a@ == b@) ==> a == b
 { admit(); }
+/// the items an `IntoIterator` yields (uninterpreted; pinned down for slices below)
+pub uninterp spec fn iter_items<T, I>(i: I) -> Seq<T>;
+/// iterating a `&[T]` yields its elements in order
+pub broadcast proof fn axiom_iter_items_slice<'a, T>(s: &'a [T])
+  ensures #[trigger] iter_items::<T, &'a [T]>(s) == s@
+{ admit(); }
 /// `String == str` (also through references) compares the characters.
 pub broadcast proof fn axiom_string_str_eq(a: &String, b: &str)
   ensures #![trigger a@, b@] <String as vstd::std_specs::cmp::PartialEqSpec<str>>::obeys_eq_spec()
@@ -25,6 +31,18 @@ pub broadcast proof fn axiom_string_str_eq(a: &String, b: &str)
 pub assume_specification<T, F: FnOnce() -> Option<T>>[ Option::<T>::or_else ](o: Option<T>, f: F) -> (r: Option<T>)
   requires o is None ==> f.requires(()),
   ensures o is Some ==> r == o, o is None ==> f.ensures((), r);
+/// ASSUMED std spec: Vec::extend from an iterator of references appends the items
+pub assume_specification<'a, T: Copy + 'a, A: core::alloc::Allocator, I: IntoIterator<Item = &'a T>>[ <Vec<T, A> as Extend<&'a T>>::extend ](v: &mut Vec<T, A>, i: I)
+  ensures final(v)@ == old(v)@ + vxstd::iter_items::<T, I>(i);
+/// ASSUMED std spec: Option<Result<T,E>>::transpose
+pub assume_specification<T, E>[ Option::<Result<T, E>>::transpose ](o: Option<Result<T, E>>) -> (r: Result<Option<T>, E>)
+  ensures
+    o is None ==> r == Ok::<Option<T>, E>(None),
+    o is Some && o->Some_0 is Ok ==> r == Ok::<Option<T>, E>(Some(o->Some_0->Ok_0)),
+    o is Some && o->Some_0 is Err ==> r == Err::<Option<T>, E>(o->Some_0->Err_0);
+/// ASSUMED std spec: Vec<T> -> Box<[T]> keeps the elements
+pub assume_specification<T, A: core::alloc::Allocator>[ <Box<[T], A> as From<Vec<T, A>>>::from ](v: Vec<T, A>) -> (r: Box<[T], A>)
+  ensures r@ == v@;
 
 
 // ---- foreign types (opaque) ----
@@ -49,7 +67,7 @@ pub broadcast proof fn axiom_string_key_maps_contains<V>(m: Map<String, V>, q: &
 { admit(); }
 
 }
-broadcast use {vxstd::axiom_str_ext, vxstd::axiom_string_str_eq, ax::axiom_string_key_maps_contains};
+broadcast use {vxstd::axiom_str_ext, vxstd::axiom_string_str_eq, vxstd::axiom_iter_items_slice, ax::axiom_string_key_maps_contains};
 
 pub struct JwtHeader {
   pub jku: Option<Url>,
@@ -476,6 +494,8 @@ pub(crate) fn validate_jws_headers(protected: Option<&JwsHeader>, unprotected: O
 
   Ok(())
 }
+
+
 
 } // verus!
 fn main() {}
